@@ -276,6 +276,11 @@ class IPCServer(IPCBase):
                 self.sock.settimeout(timeout)
 
     def __enter__(self) -> IPCServer:
+        # Each accepted connection starts with a clean reassembly state: bytes of an
+        # incomplete frame left by the previous client must not be mixed into the
+        # next client's request.
+        self.buffer = bytearray()
+        self.message_size = None
         if sys.platform == "win32":
             # NOTE: It is theoretically possible that this will hang forever if the
             # client never connects, though this can be "solved" by killing the server
